@@ -98,7 +98,7 @@ FLOORS = {
     'default-skip-with-unknown:config': 0.01, 'default-skip-with-unknown:file': 0.01,
     'default-skip-with-unknown:multi': 0.01, 'missing:abs-direct': 0.003,
     'nspath:namespace-dir-consulted': 0.05, 'selected:custom-reader': 0.05,
-    'unknown:in-extra-bindings,skipped': 0.005, 'unknown:skipped': 0.02,
+    'unknown:in-extra-bindings,skipped': 0.004, 'unknown:skipped': 0.02,
     'multi:nothing-to-parse,finalize-default': 0.004, 'args:multi-finalize-positional-False': 0.02,
     'args:multi-skip-positional': 0.03, 'args:skip-positional': 0.05,
     'after:nothing-to-parse,finalize-default': 0.03, 'ns:file-only-in-later-portion': 0.015,
@@ -208,8 +208,8 @@ def strategy():
       'files': files,
       'bindings': st.integers(0, 3).flatmap(lambda k: st.lists(
           _stmt().filter(lambda s: s[0] in 'bmuk'), min_size=max(0, k - 1), max_size=3)),
-      'missing': st.one_of(st.none(), st.none(), st.none(), _small, _small),
-      'unknown': st.one_of(st.none(), st.none(), st.none(), _unknown, _unknown),
+      'missing': st.one_of(st.none(), _small),
+      'unknown': st.one_of(st.none(), _unknown),
   })
 
 
